@@ -45,7 +45,7 @@ pub fn history_from_json(j: &Json) -> Option<History> {
 // ---------------------------------------------------------------------------
 // generation: a library whose partial evaluation is shared between requests
 
-fn lib_source(g: &mut Rng) -> (String, Vec<String>) {
+fn lib_source(g: &mut Rng, session: bool) -> (String, Vec<String>) {
     let mut fields: Vec<(String, String)> = Vec::new();
     let depth = *g.pick(&[8u64, 20, 45, 90, 160, 300]);
     let neg = g.chance(1, 2);
@@ -55,6 +55,10 @@ fn lib_source(g: &mut Rng) -> (String, Vec<String>) {
     cfg.deep = None;
     cfg.natives = false;
     cfg.errors = g.chance(1, 4);
+    if session {
+        // std.trace output lands on the captured stderr, which session mode compares
+        cfg.effects = false;
+    }
     let sub = |g: &mut Rng, ty: &Ty| Gen::new(g, cfg.clone()).program(ty).print();
     let menu: Vec<(&str, String)> = vec![
         ("shallow", "1".into()),
@@ -132,10 +136,14 @@ fn client_source(g: &mut Rng, names: &[String], via: &str) -> String {
 }
 
 pub fn gen_history(seed: u64, with_faults: bool) -> History {
+    gen_history_mode(seed, with_faults, false)
+}
+
+pub fn gen_history_mode(seed: u64, with_faults: bool, session: bool) -> History {
     let mut g = Rng::stream(seed, "gen");
     let mut o = Rng::stream(seed, "ops");
     let mut files: BTreeMap<String, Vec<u8>> = BTreeMap::new();
-    let (lib, mut names) = lib_source(&mut g);
+    let (lib, mut names) = lib_source(&mut g, session);
     files.insert("lib.libsonnet".into(), lib.into_bytes());
     files.insert("lib/sub.libsonnet".into(), b"{ s: 1, t: [self.s, 2], local up = import \"../lib.libsonnet\", back:: up.shallow }".to_vec());
     names.retain(|n| n != "fn");
@@ -158,6 +166,22 @@ pub fn gen_history(seed: u64, with_faults: bool) -> History {
     if g.chance(1, 6) {
         files.insert("broken.jsonnet".into(), b"local x = 1; y".to_vec());
         srcs.push("broken.jsonnet".into());
+    }
+    if session {
+        // the same relative import string resolving differently per importing directory / search path
+        files.insert("a/main.jsonnet".into(), b"{ who: \"a\", u: import \"util.libsonnet\", t: importstr \"util.libsonnet\" }".to_vec());
+        files.insert("a/util.libsonnet".into(), b"\"A\"".to_vec());
+        files.insert("b/main.jsonnet".into(), b"{ who: \"b\", u: import \"util.libsonnet\", s: importstr \"util.libsonnet\" }".to_vec());
+        files.insert("b/util.libsonnet".into(), b"\"B\"".to_vec());
+        files.insert("c/main.jsonnet".into(), b"{ who: \"c\", u: import \"util.libsonnet\", x: import \"extra.libsonnet\" }".to_vec());
+        files.insert("j/util.libsonnet".into(), b"\"J\"".to_vec());
+        files.insert("d/main.jsonnet".into(), b"{ who: \"d\", x: import \"extra.libsonnet\", b: importbin \"extra.libsonnet\" }".to_vec());
+        files.insert("d/extra.libsonnet".into(), b"\"D\\u00e9\"".to_vec());
+        for s in ["a/main.jsonnet", "b/main.jsonnet", "c/main.jsonnet", "d/main.jsonnet"] {
+            if g.chance(2, 3) {
+                srcs.push(s.to_string());
+            }
+        }
     }
     // loads first for a random subset, others interleaved later
     o.shuffle(&mut srcs);
